@@ -73,8 +73,9 @@ func c06Labels(s ttxStream) (bool, []string) {
 			ls = append(ls, l)
 		}
 	}
-	var split, nat, parity, multirun, erase bool
+	var split, nat, parity, multirun, erase, noflag bool
 	for _, in := range s.Instances {
+		noflag = noflag || in.NoFlag
 		split = split || in.SplitAt > 0
 		nat = nat || in.C12+in.C13+in.C14 > 0
 		erase = erase || len(in.Rows) == 0
@@ -83,6 +84,7 @@ func c06Labels(s ttxStream) (bool, []string) {
 			multirun = multirun || len(r.Segs) > 1
 		}
 	}
+	add(noflag, "instance-without-subtitle-flag")
 	add(!s.Serial, "parallel-mode-interleaved-distractor")
 	add(s.Serial, "serial-mode")
 	add(!s.OptPage, "auto-page")
